@@ -126,7 +126,7 @@ func recWorker(idx, n int, thorough bool, out string) {
 	specs := recordFamilies(thorough)
 	res := workerResult{PerFam: map[string]int{}, Classes: map[string]int{}, Shapes: map[string]int{}, Viol: map[string]*violAgg{}}
 	for i, sp := range specs {
-		if i%n != idx {
+		if int((uint32(i)*2654435761)>>12)%n != idx { // scattered: heavy records come in runs
 			continue
 		}
 		r := sp.mk()
@@ -304,6 +304,47 @@ func runSnapshot(mode string, n int) snapOutcome {
 	return o
 }
 
+// runAbort: one aborted-save scenario (abort.go): a child that commits, starts a save,
+// aborts it and closes; then a child that only reopens and compares.
+func runAbort(setup, mode string) snapOutcome {
+	o := snapOutcome{mode: "abort/" + mode + "/" + setup}
+	dir := ev.Scratch("c10-abort")
+	defer os.RemoveAll(dir)
+	os.MkdirAll(dir+"/db", 0o755)
+	for i, op := range []string{"abort", "abort-verify"} {
+		sp := snapSpec{Op: op, Mode: mode, Setup: setup, Dir: dir + "/db/", Result: fmt.Sprintf("%s/result%d.json", dir, i)}
+		bs, _ := json.Marshal(sp)
+		specFile := fmt.Sprintf("%s/spec%d.json", dir, i)
+		os.WriteFile(specFile, bs, 0o644)
+		if err := runChild("--snap", specFile); err != nil {
+			if strings.Contains(err.Error(), "HARNESS:") {
+				ev.HarnessError("abort scenario child (%s, %s): %v", setup, mode, err)
+			}
+			e := err.Error()
+			if len(e) > 600 {
+				e = e[:600]
+			}
+			o.viol = append(o.viol, violation{"snap/abort/" + mode + "/process-died", fmt.Sprintf("%s step (%s): %s", op, setup, e)})
+			return o
+		}
+		var r abortResult
+		rb, err := os.ReadFile(sp.Result)
+		if err != nil || json.Unmarshal(rb, &r) != nil {
+			ev.HarnessError("abort scenario child left no result: %v", err)
+		}
+		o.steps++
+		o.records += abortRecords * abortFinalGen(setup)
+		for _, v := range r.Viol {
+			v.What += " [" + setup + "]"
+			o.viol = append(o.viol, v)
+		}
+		if len(r.Viol) > 0 {
+			return o
+		}
+	}
+	return o
+}
+
 // ---------------------------------------------------------------- main
 
 func replay(file string) {
@@ -317,6 +358,7 @@ func replay(file string) {
 			Record *recJSON `json:"record"`
 			Value  uint64   `json:"value"`
 			Mode   string   `json:"mode"`
+			Setup  string   `json:"setup"`
 			N      int      `json:"n"`
 		} `json:"replay"`
 	}
@@ -334,6 +376,8 @@ func replay(file string) {
 		}
 	case "snapshot":
 		viol = runSnapshot(rec.Replay.Mode, rec.Replay.N).viol
+	case "abort":
+		viol = runAbort(rec.Replay.Setup, rec.Replay.Mode).viol
 	default:
 		ev.HarnessError("unknown replay kind %q", rec.Replay.Kind)
 	}
@@ -398,9 +442,11 @@ func main() {
 		go func(i int) {
 			defer wg.Done()
 			out := fmt.Sprintf("%s/rec%d.json", scratch, i)
+			t0 := time.Now()
 			if err := runChild("--rec-worker", fmt.Sprint(i), fmt.Sprint(nw), tier, out); err != nil {
 				ev.HarnessError("record worker: %v", err)
 			}
+			fmt.Fprintf(os.Stderr, "timing: record worker %d: %.1fs\n", i, time.Since(t0).Seconds())
 			bs, err := os.ReadFile(out)
 			if err != nil || json.Unmarshal(bs, &results[i]) != nil {
 				ev.HarnessError("record worker left no result: %v", err)
@@ -421,11 +467,29 @@ func main() {
 			wg.Add(1)
 			go func(mode string, n int) {
 				defer wg.Done()
+				t0 := time.Now()
 				o := runSnapshot(mode, n)
+				fmt.Fprintf(os.Stderr, "timing: snapshot %s n=%d: %.1fs\n", mode, n, time.Since(t0).Seconds())
 				smu.Lock()
 				snaps = append(snaps, o)
 				smu.Unlock()
 			}(mode, n)
+		}
+	}
+	var aborts []snapOutcome
+	for _, setup := range abortSetups {
+		for _, mode := range abortModes {
+			wg.Add(1)
+			go func(setup, mode string) {
+				defer wg.Done()
+				t0 := time.Now()
+				o := runAbort(setup, mode)
+				fmt.Fprintf(os.Stderr, "timing: abort %s %s: %.1fs\n", setup, mode, time.Since(t0).Seconds())
+				o.n = map[string]int{"fresh": 0, "with-older-snapshot": 1}[setup]
+				smu.Lock()
+				aborts = append(aborts, o)
+				smu.Unlock()
+			}(setup, mode)
 		}
 	}
 	wg.Wait()
@@ -483,24 +547,41 @@ func main() {
 			r.Report(v.Key, fmt.Sprintf("%s [pool of %d records]", v.What, o.n), map[string]interface{}{"kind": "snapshot", "mode": o.mode, "n": o.n})
 		}
 	}
+	sort.Slice(aborts, func(i, j int) bool { return aborts[i].mode < aborts[j].mode })
+	abortCov := []map[string]interface{}{}
+	for _, o := range aborts {
+		outcome := "state kept"
+		if len(o.viol) > 0 {
+			outcome = "differs"
+		}
+		abortCov = append(abortCov, map[string]interface{}{"scenario": o.mode, "steps_run": o.steps, "records_compared": o.records, "outcome": outcome})
+		snapEvals += o.steps
+		tot.Shapes[fmt.Sprintf("aborted-save|%s|%s", o.mode, outcome)]++
+		parts := strings.Split(o.mode, "/") // abort/<mode>/<setup>
+		for _, v := range o.viol {
+			vc[v.Key]++
+			r.Report(v.Key, v.What, map[string]interface{}{"kind": "abort", "mode": parts[1], "setup": parts[2]})
+		}
+	}
 	os.RemoveAll(scratch) // Finish exits the process: deferred calls do not run
 	var samples []interface{}
 	for _, s := range tot.Samples {
 		samples = append(samples, s)
 	}
 	r.Finish(map[string]interface{}{
-		"evaluations":          tot.Evals + am.evals + snapEvals,
-		"records_evaluated":    tot.Evals,
-		"records_per_family":   tot.PerFam,
-		"amount_roundtrips":    am.evals,
-		"amount_max_mantissa":  maxM,
-		"amount_overflowing":   am.overflow,
-		"snapshot_scenarios":   snapCov,
-		"distinct_nontrivial":  len(tot.Shapes),
-		"rule":                 "a record case is non-trivial when it has at least one live output (it is then stored, decoded in both formats with heap and pooled allocation, and looked up output by output); distinct = number of distinct (family, out-count class, live fraction, coinbase flag, script classes, outcome) tuples, plus one per snapshot scenario (mode, pool size, outcome)",
-		"outcome_classes":      tot.Classes,
-		"violation_case_count": vc,
-		"samples":              samples,
+		"evaluations":            tot.Evals + am.evals + snapEvals,
+		"records_evaluated":      tot.Evals,
+		"records_per_family":     tot.PerFam,
+		"amount_roundtrips":      am.evals,
+		"amount_max_mantissa":    maxM,
+		"amount_overflowing":     am.overflow,
+		"snapshot_scenarios":     snapCov,
+		"aborted_save_scenarios": abortCov,
+		"distinct_nontrivial":    len(tot.Shapes),
+		"rule":                   "a record case is non-trivial when it has at least one live output (it is then stored, decoded in both formats with heap and pooled allocation, and looked up output by output); distinct = number of distinct (family, out-count class, live fraction, coinbase flag, script classes, outcome) tuples, plus one per snapshot scenario (mode, pool size, outcome)",
+		"outcome_classes":        tot.Classes,
+		"violation_case_count":   vc,
+		"samples":                samples,
 	}, []string{
 		"oracle is identity on the model record (txid, height, coinbase flag, out count, live set, value and script of every live output) and projection for single-output lookups; no reference codec is involved",
 		"curve facts used to build P2PK keys with a coordinate >= p (smallest abscissa / ordinate that lies on y^2 = x^3 + 7) are computed with math/big from the SEC2 constants, independent of gocoin's secp256k1 package",
